@@ -183,13 +183,13 @@ impl Monitor for C15 {
         "C15"
     }
     fn gens(&self, tier: Tier) -> Vec<Gen> {
-        vec![gen("cell", tier.pick(80, 80, 80))]
+        vec![gen("cell", tier.pick(80, 80, 80)), gen("listen", tier.pick(60 * 4, 60 * 40, 12))]
     }
     fn exhaustive(&self, _tier: Tier) -> bool {
         true
     }
     fn rule(&self) -> String {
-        "cell: case i = (SF, BW) = (5 + i/10, i%10), all 80 cells; in each cell the airtime calculator and SX1261, SX1262, STM32WL, SX1272, SX1276, LR1110 are each asked (all 4 coding rates x {868.1, 433.175 MHz}) for their decision via BaseBandModulationParams::new / RadioKind::create_modulation_params, then set_modulation_params is run on a recording bus (random prior register file) and the written LDRO bit decoded. Class = (SF, BW, implementation).".into()
+        "cell: case i = (SF, BW) = (5 + i/10, i%10), all 80 cells; in each cell the airtime calculator and SX1261, SX1262, STM32WL, SX1272, SX1276, LR1110 are each asked (all 4 coding rates x {868.1, 433.175 MHz}) for their decision via BaseBandModulationParams::new / RadioKind::create_modulation_params, then set_modulation_params is run on a recording bus (random prior register file) and the written LDRO bit decoded. Class = (SF, BW, implementation). listen: LoRa::listen(frequency, bandwidth) on a LoRa built over each of the six chip variants, for each of the ten bandwidths, fresh or after a reception was prepared with another (SF, BW); the LDRO setting left on the chip when the RSSI reception starts is decoded and compared with the rule for the spreading factor the driver programmed.".into()
     }
     fn assumptions(&self) -> Vec<String> {
         vec![
@@ -204,11 +204,16 @@ impl Monitor for C15 {
         vec![
             "decided:calc", "decided:sx1261", "decided:sx1262", "decided:stm32wl", "decided:sx1272", "decided:sx1276", "decided:lr1110",
             "written:sx1261", "written:sx1262", "written:stm32wl", "written:sx1272", "written:sx1276", "written:lr1110",
+            "listen_judged", "listen_ref_on", "listen_ref_off",
             "cell:lorawan", "cell:tsym=16.384ms", "cell:tsym>16.384ms", "cell:tsym<16.38ms", "cell:setvalued", "ref_on", "ref_off",
         ]
     }
 
-    fn run_case(&self, _g: &str, idx: u64, rng: &mut Prng, col: &mut Collector) {
+    fn run_case(&self, g: &str, idx: u64, rng: &mut Prng, col: &mut Collector) {
+        if g == "listen" {
+            listen_case(idx, rng, col);
+            return;
+        }
         let sfi = (idx / 10) as usize % 8;
         let bwi = (idx % 10) as usize;
         let sf = sf_num(sfi);
@@ -365,6 +370,111 @@ impl Monitor for C15 {
         }
         if col.want_sample() {
             col.sample(json!({"cell": cell, "class": cc, "reference_true_bw": ref_true, "reference_nominal_bw": ref_nom, "decisions": Value::Object(table)}));
+        }
+    }
+}
+
+
+/// LoRa::listen programs a modulation of its own (only the bandwidth is the caller's): the LDRO
+/// setting the chip runs with must follow the same rule for whatever spreading factor was programmed.
+fn listen_drive<RK: RadioKind>(rk: RK, bus: &Bus, decode: fn(&Chip) -> Option<bool>, sf_of: fn(&Chip) -> Option<u8>, bwi: usize, prior: Option<(usize, usize)>, freq: u32) -> Result<(Option<bool>, Option<u8>), String> {
+    let mut lora = match trap(|| block_on(lora_phy::LoRa::new(rk, true, NoDelay))) {
+        Ok(Ok(l)) => l,
+        Ok(Err(e)) => return Err(format!("init: {:?}", e)),
+        Err(t) => return Err(format!("init panic: {}", t.msg)),
+    };
+    if let Some((psf, pbw)) = prior {
+        let _ = trap(|| {
+            if let Ok(mp) = lora.create_modulation_params(SFS[psf], BWS[pbw], CRS[0], freq) {
+                if let Ok(pp) = lora.create_rx_packet_params(8, false, 255, true, true, &mp) {
+                    let _ = block_on(lora.prepare_for_rx(lora_phy::RxMode::Continuous, &mp, &pp));
+                }
+            }
+        });
+    }
+    bus.chip().clear_decoded();
+    match trap(|| block_on(lora.listen(freq, BWS[bwi]))) {
+        Ok(Ok(())) => {
+            let l = decode(&bus.chip());
+            let f = sf_of(&bus.chip());
+            Ok((l, f))
+        }
+        Ok(Err(e)) => Err(format!("{:?}", e)),
+        Err(t) => Err(format!("panic: {}", t.msg)),
+    }
+}
+
+fn sf_sx126x(c: &Chip) -> Option<u8> {
+    c.mod_params.map(|(_, p)| p[0])
+}
+fn sf_sx127x(c: &Chip) -> Option<u8> {
+    Some(c.regs[0x1E] >> 4)
+}
+fn sf_lr11xx(c: &Chip) -> Option<u8> {
+    c.mod_params.map(|(_, p)| p[0])
+}
+
+fn listen_case(idx: u64, rng: &mut Prng, col: &mut Collector) {
+    let bwi = (idx % 10) as usize;
+    let imp = 1 + ((idx / 10) % 6) as usize;
+    let name = IMPLS[imp];
+    let freq = FREQS[((idx / 60) % 2) as usize];
+    let prior = if (idx / 120) % 2 == 1 { Some((rng.below(8) as usize, rng.below(10) as usize)) } else { None };
+    let out = match imp {
+        1 => {
+            let (rk, bus) = new_sx1261();
+            listen_drive(rk, &bus, dec_sx126x, sf_sx126x, bwi, prior, freq)
+        }
+        2 => {
+            let (rk, bus) = new_sx1262();
+            listen_drive(rk, &bus, dec_sx126x, sf_sx126x, bwi, prior, freq)
+        }
+        3 => {
+            let (rk, bus) = new_stm32wl(true);
+            listen_drive(rk, &bus, dec_sx126x, sf_sx126x, bwi, prior, freq)
+        }
+        4 => {
+            let (rk, bus) = new_sx1272_rx(rng.bool(), rng.bool());
+            listen_drive(rk, &bus, dec_sx1272, sf_sx127x, bwi, prior, freq)
+        }
+        5 => {
+            let (rk, bus) = new_sx1276_rx(rng.bool(), rng.bool());
+            listen_drive(rk, &bus, dec_sx1276, sf_sx127x, bwi, prior, freq)
+        }
+        _ => {
+            let (rk, bus) = new_lr1110(lora_phy::lr1110::PaSelection::Lp);
+            listen_drive(rk, &bus, dec_lr11xx, sf_lr11xx, bwi, prior, freq)
+        }
+    };
+    col.eval(&format!("listen|{}|BW{}|{}", name, BW_NAME[bwi], if prior.is_some() { "after-rx" } else { "fresh" }));
+    match out {
+        Err(e) => {
+            col.event(&format!("listen_refused:{}", name));
+            let n = col.notes.entry("listen_refusals".into()).or_insert(json!({}));
+            if let Some(m) = n.as_object_mut() {
+                m.entry(format!("{}|BW{}", name, BW_NAME[bwi])).or_insert(json!(e));
+            }
+        }
+        Ok((left, sf)) => {
+            let Some(sf) = sf.filter(|s| (5..=12).contains(s)) else {
+                col.event("listen_sf_not_decodable");
+                return;
+            };
+            let sfi = sf as usize - 5;
+            let (ref_true, ref_nom) = reference(sfi, bwi);
+            if ref_true != ref_nom {
+                col.event("listen_setvalued_cell");
+                return;
+            }
+            col.event("listen_judged");
+            col.event(if ref_true { "listen_ref_on" } else { "listen_ref_off" });
+            match left {
+                Some(l) if l == ref_true => {}
+                Some(l) => viol(col, &format!("C15|listen|{}|left={} ref={}|{}", name, onoff(l), onoff(ref_true), cell_class(sfi, bwi)), "LoRa::listen starts its reception with an LDRO setting that differs from the 16.38 ms rule for the modulation it programmed", || {
+                    json!({"impl": name, "bandwidth": BW_NAME[bwi], "spreading_factor_programmed": sf, "left_on_chip": l, "reference": ref_true, "prior_reception": prior.map(|(a, b)| format!("SF{}/BW{}", a + 5, BW_NAME[b])), "freq": freq})
+                }),
+                None => col.event("listen_ldro_not_decodable"),
+            }
         }
     }
 }
